@@ -196,7 +196,7 @@ impl Optimizer for LM {
                     break;
                 }
                 // adjust damping factor
-                mu = f64::max(1. / 3., 1. - (2. * rho - 1.).powi(3));
+                mu *= f64::max(1. / 3., 1. - (2. * rho - 1.).powi(3));
                 nu = 2.;
             } else {
                 // increase damping factor and try again with same parameters
